@@ -12,7 +12,7 @@ import ast
 
 from ..engine import rule
 from ..model import Undecided
-from ..cfg import dotted, call_name, is_call, simple_name, unparse, const_value, contains, enclosing, implied
+from ..cfg import same, same_args, dotted, call_name, is_call, simple_name, unparse, const_value, contains, enclosing, implied
 from ..flow import Defs, depends
 from ..decide import table, ret_kind
 from ..util import resolve1, keyword, returns_of, calls_in, inside, order_key
@@ -115,7 +115,7 @@ def c17b(ctx):
     if not ret:
         ctx.bad('WMSSource._get_map:retrieve', 'no client.retrieve call', fn)
     # (i) the direct retrieve: when supported_srs is set, request_srs was found by the equality loop
-    loop = [s for s in fn.walk() if isinstance(s, ast.For) and unparse(s.iter) == 'self.supported_srs']
+    loop = [s for s in fn.walk() if isinstance(s, ast.For) and same(s.iter, 'self.supported_srs')]
     ok = bool(loop)
     if ok:
         lp = loop[0]
@@ -134,7 +134,7 @@ def c17b(ctx):
         ctx.check(ok, 'WMSSource._get_map:retrieve-only-supported', 'the direct upstream request is not reachable with an unsupported SRS', fn, x,
                   fail='the upstream request can be sent in an SRS that is not in supported_srs')
     sets = [s for s in fn.walk() if isinstance(s, ast.Assign) and unparse(s.targets[0]) == 'query.srs']
-    ok = all(unparse(s.value) == 'request_srs' for s in sets)
+    ok = all(same(s.value, 'request_srs') for s in sets)
     ctx.check(ok, 'WMSSource._get_map:srs-code-from-supported', 'query.srs is only replaced by the supported entry', fn)
     gt = ctx.fn(SW + ':WMSSource._get_transformed')
     # closed forms of what is sent upstream: MapQuery(<query bbox transformed into S>, <size>, S, ...) with S = supported_srs.best_srs(query.srs)
@@ -152,7 +152,7 @@ def c17b(ctx):
     gs = ctx.fn(SW + ':WMSSource._get_sub_query')
     sends = [x for x in gs.walk() if is_call(x, 'self.client.retrieve')]
     forms = [gs.canon.expr(x.args[0]) for x in sends if x.args]
-    ok = bool(forms) and all(is_call(f, 'MapQuery') and len(f.args) >= 3 and unparse(f.args[2]) == 'query.srs' for f in forms)
+    ok = bool(forms) and all(is_call(f, 'MapQuery') and len(f.args) >= 3 and same(f.args[2], 'query.srs') for f in forms)
     ctx.check(ok, 'WMSSource._get_sub_query:inherits-srs', 'the sub-query inherits the (already negotiated) SRS of its parent', gs)
     ps = ctx.fn('mapproxy/srs.py:PreferredSrcSRS.preferred_src')
     g = ps.cfg
@@ -160,19 +160,19 @@ def c17b(ctx):
     for r in g.find_stmts(lambda s: isinstance(s, ast.Return)):
         v = g.stmt[r].value
         ok = False
-        if isinstance(v, ast.Subscript) and unparse(v.value) == 'available_src':
+        if isinstance(v, ast.Subscript) and same(v.value, 'available_src'):
             ok = True
         elif isinstance(v, ast.Name):
             lp = enclosing(g.stmt[r], ast.For)
-            if lp is not None and unparse(lp.target) == v.id and unparse(lp.iter) == 'available_src':
+            if lp is not None and unparse(lp.target) == v.id and same(lp.iter, 'available_src'):
                 ok = True
-            elif g.guarded(r, lambda at: at.op == 'in' and unparse(at.left) == v.id and unparse(at.right) == 'available_src', True):
+            elif g.guarded(r, lambda at: at.op == 'in' and unparse(at.left) == v.id and same(at.right, 'available_src'), True):
                 ok = True
         okall = okall and ok
     ctx.check(okall, 'PreferredSrcSRS.preferred_src:returns-available', 'every returned SRS is an element of available_src', ps,
               fail='preferred_src can return an SRS that is not among the available (supported) ones')
     bs = ctx.fn('mapproxy/srs.py:SupportedSRS.best_srs')
-    ok = any(is_call(x, 'self.preferred_srs.preferred_src') and unparse(x.args[1]) == 'self.supported_srs' for x in bs.walk())
+    ok = any(is_call(x, 'self.preferred_srs.preferred_src') and same(x.args[1], 'self.supported_srs') for x in bs.walk())
     ctx.check(ok, 'SupportedSRS.best_srs:from-supported', 'best_srs chooses among self.supported_srs', bs)
 
 
@@ -182,18 +182,18 @@ def c17c(ctx):
     g = fn.cfg
     defs = Defs(fn.node)
     neg = [s for s in fn.walk() if isinstance(s, ast.If) and 'self.supported_formats' in unparse(s.test) and 'not in' in unparse(s.test)]
-    ok = bool(neg) and any(isinstance(b, ast.Assign) and unparse(b.targets[0]) == 'format' and unparse(b.value) == 'self.supported_formats[0]' for b in neg[0].body)
+    ok = bool(neg) and any(isinstance(b, ast.Assign) and unparse(b.targets[0]) == 'format' and same(b.value, 'self.supported_formats[0]') for b in neg[0].body)
     ctx.check(ok, 'WMSSource._get_map:format-negotiation', 'a format that is not supported is replaced by supported_formats[0]', fn,
               fail='the requested format is not negotiated against supported_formats')
     sinks = g.find(lambda x: is_call(x, 'self.client.retrieve', 'self._get_transformed', 'self._get_sub_query'))
     negn = g.node_of.get(id(neg[0])) if neg else None
-    ok = bool(sinks) and negn is not None and all(unparse(x.args[1]) == 'format' and g.dominates(negn, n) for n, x in sinks)
+    ok = bool(sinks) and negn is not None and all(same(x.args[1], 'format') and g.dominates(negn, n) for n, x in sinks)
     ctx.check(ok, 'WMSSource._get_map:negotiated-format-passed', 'the negotiated `format` variable is what is passed on, after the negotiation', fn,
               fail='the format passed upstream is not the negotiated one (or is passed before the negotiation)')
     for m in ('_get_sub_query', '_get_transformed'):
         f = ctx.fn('%s:WMSSource.%s' % (SW, m))
         rs = [x for x in f.walk() if is_call(x, 'self.client.retrieve', 'self._get_sub_query')]
-        ok = bool(rs) and all(unparse(x.args[1]) == 'format' for x in rs) and 'format' in f.params
+        ok = bool(rs) and all(same(x.args[1], 'format') for x in rs) and 'format' in f.params
         ctx.check(ok, 'WMSSource.%s:format-threaded' % m, 'the format parameter is threaded through unchanged', f)
 
 
@@ -204,7 +204,7 @@ def c17d(ctx):
     ret = g.find(lambda x: is_call(x, 'self.client.retrieve'))
     ext = lambda at: at.mentions(lambda x: is_call(x, 'self.extent.contains') and x.args and is_call(x.args[0], 'MapExtent'))
     # every path to the unsplit request either found the query inside the extent or found no extent configured
-    noext = lambda at: at.op is None and unparse(at.expr) == 'self.extent'
+    noext = lambda at: at.op is None and same(at.expr, 'self.extent')
     ok = bool(ret) and all(g.guarded_any(n, [(ext, True), (noext, False)]) for n, x in ret)
     ctx.check(ok, 'WMSSource._get_map:unsplit-only-inside-extent', 'the unsplit request is not sent when the source extent does not contain the query', fn,
               fail='the full query is sent upstream although it exceeds the source extent')
@@ -215,7 +215,7 @@ def c17d(ctx):
     g = gs.cfg
     defs = Defs(gs.node)
     bp = [x for x in gs.walk() if is_call(x, 'bbox_position_in_image')]
-    ok = len(bp) == 1 and [unparse(a) for a in bp[0].args] == ['query.bbox', 'query.size', 'self.extent.bbox_for(query.srs)']
+    ok = len(bp) == 1 and same_args(bp[0].args, ['query.bbox', 'query.size', 'self.extent.bbox_for(query.srs)'])
     ctx.check(ok, 'WMSSource._get_sub_query:limited-to-extent', 'the sub-query box is bbox_position_in_image(query.bbox, query.size, extent in the query SRS)', gs,
               fail='the sub-query is not limited to the source extent in the query SRS')
     tgt = enclosing(bp[0], ast.Assign).targets[0] if bp and enclosing(bp[0], ast.Assign) is not None else None
@@ -249,7 +249,7 @@ def c17e(ctx):
     arg = ups[0].args[0] if len(ups) == 1 else None
     if isinstance(arg, ast.Name) and len(defs.of(arg.id)) == 1 and defs.of(arg.id)[0][1] is None:
         arg = defs.of(arg.id)[0][0]
-    ok = len(ups) == 1 and is_call(arg, 'query.dimensions_for_params') and unparse(arg.args[0]) == 'self.fwd_req_params'
+    ok = len(ups) == 1 and is_call(arg, 'query.dimensions_for_params') and same(arg.args[0], 'self.fwd_req_params')
     other = [x for x in fn.walk() if isinstance(x, ast.Attribute) and x.attr == 'dimensions' and not is_call(getattr(x, '_parent', None), 'query.dimensions_for_params')
              and not (isinstance(getattr(x, '_parent', None), ast.Attribute))]
     ctx.check(ok and not other, 'WMSClient._query_req:only-filtered-dimensions',
@@ -267,7 +267,7 @@ def c17e(ctx):
             if is_call(f, 'set', 'list', 'tuple', 'frozenset') and f.args:
                 f = f.args[0]
             if isinstance(f, (ast.ListComp, ast.SetComp, ast.GeneratorExp)) and len(f.generators) == 1 and not f.generators[0].ifs and \
-                    unparse(f.elt) == '%s.lower()' % unparse(f.generators[0].target):
+                    same(f.elt, '%s.lower()' % unparse(f.generators[0].target)):
                 src = f.generators[0].iter
                 if unparse(src) == par or (isinstance(src, ast.Name) and src.id != getattr(e, 'id', None) and lowered(src)):
                     return True
@@ -275,17 +275,17 @@ def c17e(ctx):
 
     def keeps(test, k):
         return isinstance(test, ast.Compare) and len(test.ops) == 1 and isinstance(test.ops[0], ast.In) and \
-            unparse(test.left) == '%s.lower()' % k and lowered(test.comparators[0])
+            same(test.left, '%s.lower()' % k) and lowered(test.comparators[0])
     ok = False
     for x in ast.walk(dp.node):
-        if isinstance(x, (ast.GeneratorExp, ast.DictComp, ast.ListComp)) and x.generators and unparse(x.generators[0].iter) == 'self.dimensions.items()':
+        if isinstance(x, (ast.GeneratorExp, ast.DictComp, ast.ListComp)) and x.generators and same(x.generators[0].iter, 'self.dimensions.items()'):
             gen = x.generators[0]
             if isinstance(gen.target, ast.Tuple) and len(gen.target.elts) == 2:
                 k, v = (unparse(e) for e in gen.target.elts)
                 elt_ok = (isinstance(x, ast.DictComp) and unparse(x.key) == k and unparse(x.value) == v) or \
                     (not isinstance(x, ast.DictComp) and unparse(x.elt).replace(' ', '') == '(%s,%s)' % (k, v))
                 ok = ok or (len(gen.ifs) == 1 and keeps(gen.ifs[0], k) and elt_ok)
-        if isinstance(x, ast.For) and unparse(x.iter) == 'self.dimensions.items()' and isinstance(x.target, ast.Tuple) and len(x.target.elts) == 2:
+        if isinstance(x, ast.For) and same(x.iter, 'self.dimensions.items()') and isinstance(x.target, ast.Tuple) and len(x.target.elts) == 2:
             k, v = (unparse(e) for e in x.target.elts)
             if len(x.body) == 1 and isinstance(x.body[0], ast.If) and not x.body[0].orelse and keeps(x.body[0].test, k) and len(x.body[0].body) == 1:
                 st = x.body[0].body[0]
@@ -300,7 +300,7 @@ def c17e(ctx):
     ok = bool(sets)
     for n in sets:
         lp = enclosing(g.stmt[n], ast.For)
-        ok = ok and lp is not None and unparse(lp.iter) == 'layer.fwd_req_params' and unparse(g.stmt[n].targets[0].slice) == unparse(lp.target)
+        ok = ok and lp is not None and same(lp.iter, 'layer.fwd_req_params') and unparse(g.stmt[n].targets[0].slice) == unparse(lp.target)
     ctx.check(ok, 'WMSServer.update_query_with_fwd_params:only-configured', 'only parameters named in a layer\'s fwd_req_params are copied into the query', up)
     cc = ctx.fn(CW + ':WMSClient.combined_client')
     ok = any(is_call(x, 'WMSClient') and unparse(keyword(x, 'fwd_req_params')) == 'self.fwd_req_params' for x in cc.walk())
@@ -361,7 +361,7 @@ def c17f(ctx):
             kind = _res_kind(_closed(fn, res), defs)
             if which and kind:
                 info[a] = (which, kind, below)
-    sets = {w: [a for a in tab.atoms if tab.atom_objs[a].op is None and unparse(tab.atom_objs[a].expr) == 'self.%s_res' % w] for w in ('min', 'max')}
+    sets = {w: [a for a in tab.atoms if tab.atom_objs[a].op is None and same(tab.atom_objs[a].expr, 'self.%s_res' % w)] for w in ('min', 'max')}
     for which, label in (('min', 'coarse bound min_res'), ('max', 'fine bound max_res')):
         atoms = [a for a, i in info.items() if i[0] == which]
         kinds = {info[a][1] for a in atoms}
@@ -400,7 +400,7 @@ def _tolerance_ok(fn, tab, info, defs):
         bound = at.right if below else at.left
         form = resolve1(bound, defs)
         good = isinstance(form, ast.BinOp) and isinstance(form.op, ast.Add) and \
-            any(unparse(s_) == 'self.min_res' for s_ in (form.left, form.right)) and \
+            any(same(s_, 'self.min_res') for s_ in (form.left, form.right)) and \
             any(isinstance(const_value(s_), float) and 0 < const_value(s_) <= 1e-3 for s_ in (form.left, form.right))
         if not good:
             return False
@@ -495,7 +495,7 @@ def c17i(ctx):
         if good:
             ext, ints = f.args[0], f.args[1]
             good = is_call(ext, transf) and '%s.exterior' % poly in unparse(ext) and \
-                isinstance(ints, (ast.ListComp, ast.GeneratorExp)) and unparse(ints.generators[0].iter) == '%s.interiors' % poly and is_call(ints.elt, transf)
+                isinstance(ints, (ast.ListComp, ast.GeneratorExp)) and same(ints.generators[0].iter, '%s.interiors' % poly) and is_call(ints.elt, transf)
         ok = ok and good
     ctx.check(ok, 'transform_polygon:keeps-interior-rings', 'the transformed polygon is Polygon(transf(exterior), [transf(ring) for ring in interiors])', fn,
               fail='the transformed polygon is built without the interior rings: the holes of a coverage are filled when it is re-projected')
